@@ -41,6 +41,17 @@ def make_interp(prop, overrides=None):
     install_spec_builtins(ip)
     ip.spec_module = src.load(f"contracts.{prop}")
     ip.ref_fields = {}
+    # models of external (non-repository) classes/functions, written in the interpretable subset in the sidecars
+    native = sys.modules.get(f"contracts.{prop}")
+    models = dict(getattr(native, "EXTERNAL_MODELS", {}) or {})
+    for dotted, target in models.items():
+        modname, _, name = target.rpartition(".")
+
+        def resolver(_m=modname, _n=name, _ip=ip):
+            mi = _ip.src.load(_m)
+            return _ip.module_global(mi, _n)
+        ip.ext_models[dotted] = resolver
+    ip.external_models_used = models
     return ip
 
 
@@ -265,9 +276,13 @@ class UnitRunner:
             ip.spec_env = env
             ip.obligation_sink = self.sink(ip, lambda: env)
             ip.on_effect = None
-            for vname, decl in c["vars"].items():
-                env[vname] = ip.make_symbolic(decl, vname) if not isinstance(decl, str) or decl in (
-                    "int", "bool", "bytes", "str", "real", "any") else ip.eval_spec_expr(decl, env)
+            try:
+                for vname, decl in c["vars"].items():
+                    env[vname] = ip.make_symbolic(decl, vname) if not isinstance(decl, str) or decl in (
+                        "int", "bool", "bytes", "str", "real", "any") else ip.eval_spec_expr(decl, env)
+            except PyRaise:
+                # a pre-state whose construction raises (e.g. an invalid key) is not a pre-state of the contract
+                raise PathAbort("pre-state construction raised") from None
             for r in c["requires"]:
                 ip.assume(ip.eval_spec_expr(r, env))
             if not path.feasible(z3.BoolVal(True)):
@@ -400,8 +415,42 @@ def run_unit_job(job):
                 "instance": {}, "inlined": [], "note": "", "outcomes": {}, "paths_after_requires": 0}
 
 
+class AuditCtx:
+    def __init__(self, prop, overrides):
+        self.prop = prop
+        self.sources = Sources(REPO, overrides=overrides)
+        self.repo = REPO
+
+    def python_files(self, top="ipv8", skip_tests=True):
+        out = []
+        for root, _, files in os.walk(os.path.join(REPO, top)):
+            if skip_tests and "/test" in root.replace(REPO, ""):
+                continue
+            for f in sorted(files):
+                if f.endswith(".py"):
+                    out.append(os.path.relpath(os.path.join(root, f), REPO))
+        return sorted(out)
+
+    def module(self, relpath):
+        return self.sources.load_path(relpath)
+
+
 def run_audit(prop, a, overrides):
-    raise NotImplementedError
+    t0 = time.time()
+    name = f"{prop}/audit:{a['name']}"
+    try:
+        rows = a["fn"](AuditCtx(prop, overrides))
+        obs = []
+        for ob_name, ok, detail in rows:
+            obs.append({"name": f"{name}/{ob_name}", "status": "proved" if ok else "refuted", "vcs": 1, "time_s": 0.0,
+                        "backends": {"ast-audit": 1}, "info": {"audit": a["name"], "detail": detail},
+                        "model": None, "solver_output": detail, "backend": "ast-audit"})
+        status, err = ("ok", None) if obs else ("vacuous", "audit produced no obligations")
+    except Exception:  # noqa: BLE001
+        obs, status, err = [], "error", traceback.format_exc()
+    return {"unit": name, "fn": "audit:" + a["name"], "contract": a["name"], "instance": {}, "status": status, "error": err,
+            "paths": 0, "paths_after_requires": 0, "outcomes": {}, "obligations": obs, "assumptions": [],
+            "wall_s": time.time() - t0, "inlined": [], "note": a.get("note", ""), "counts_as_function": False}
 
 
 def run_lemma(prop, lm, overrides):
